@@ -30,17 +30,17 @@ def _stage(name, flavour, exlen, ec, random_per_unit, rlo, rhi):
 
 def _stages(tier):
     if tier == 'thorough':
-        return [_stage('asan', 'asan', 5, 96, 1500, 300, 2000),
-                _stage('opt', 'opt', 6, 192, 12000, 300, 2000)]
+        return [_stage('asan', 'asan', 5, 96, 1000, 300, 2000),
+                _stage('opt', 'opt', 5, 96, 12000, 300, 2000)]
     return [_stage('asan', 'asan', 4, 32, 120, 150, 1200),
             _stage('opt', 'opt', 5, 64, 600, 200, 2000)]
 
 
 def _minima(tier):
     th = tier == 'thorough'
-    m = {'cases.exhaustive': NU * ((96 + 192) if th else (32 + 64)),
-         'cases.random': NU * ((1500 + 12000) if th else (120 + 600)),
-         'seqs.exhaustive': 50000000 if th else 3000000,
+    m = {'cases.exhaustive': NU * ((96 + 96) if th else (32 + 64)),
+         'cases.random': NU * ((1000 + 12000) if th else (120 + 600)),
+         'seqs.exhaustive': 25000000 if th else 3000000,
          'ops.random.total': 100000000 if th else 5000000,
          'distinct:nontrivial': 100000 if th else 10000}
     for u in UNITS:
